@@ -510,7 +510,18 @@ func (qz *quantizer) retProv(c *ssa.Call, k int) (string, bool) {
 		return "", false
 	}
 	if !qz.seeThrough(callee) {
-		if !(qz.seeInts && qz.p.InModule(callee) && len(callee.Blocks) > 0 && isIntType(res.At(k).Type())) {
+		structLit := false
+		if qz.inlineAll && qz.p.InModule(callee) && len(callee.Blocks) == 1 {
+			// a one-block constructor of a struct literal (pair.reversed()): the literal itself
+			if ret, ok := callee.Blocks[0].Instrs[len(callee.Blocks[0].Instrs)-1].(*ssa.Return); ok && k < len(ret.Results) {
+				if al, ok := ret.Results[k].(*ssa.Alloc); ok {
+					if _, st := namedStruct(al.Type().Underlying().(*types.Pointer).Elem()); st != nil {
+						structLit = true
+					}
+				}
+			}
+		}
+		if !structLit && !(qz.seeInts && qz.p.InModule(callee) && len(callee.Blocks) > 0 && isIntType(res.At(k).Type())) {
 			return "", false
 		}
 	}
